@@ -229,7 +229,7 @@ def _extracted():
 
 
 def phases(tier):
-    n, n2 = (60000, 2000) if tier == "quick" else (2000000, 100000)
+    n, n2 = (60000, 2000) if tier == "quick" else (1000000, 50000)
     return [Phase("random", "gen", strategy=_case, n=n), Phase("tag-rich", "gen", strategy=_tagrich, n=n // 2),
             Phase("style-pair", "gen", strategy=_style_pair, n=n // 10),
             Phase("long-multiline", "gen", strategy=_long_case, n=n // 10),
